@@ -9,6 +9,7 @@ import (
 	"encoding/json"
 	"flag"
 	"fmt"
+	"math"
 	"math/rand"
 	"os"
 	"strconv"
@@ -86,10 +87,22 @@ func safeRange(b *pclog.ProcessLogBuffer, off, lim int) (res []string, panicked 
 	return b.GetLogRange(off, lim), false
 }
 
-func rangeRec(rec *recWriter, b *pclog.ProcessLogBuffer, off, lim int) {
+// clamp32 keeps a number inside what TLC's integers hold; beyond +-2^30 every value means the same window
+func clamp32(x int) int {
+	if x > 1<<30 {
+		return 1 << 30
+	}
+	if x < -(1 << 30) {
+		return -(1 << 30)
+	}
+	return x
+}
+
+func rangeRec(rec *recWriter, b *pclog.ProcessLogBuffer, off, lim int) []string {
 	n := b.GetLogLength()
 	res, p := safeRange(b, off, lim)
-	rec.put(map[string]any{"op": "range", "len": n, "off": off, "lim": lim, "res": lineNos(res), "panic": p})
+	rec.put(map[string]any{"op": "range", "len": n, "off": clamp32(off), "lim": clamp32(lim), "res": lineNos(res), "panic": p})
+	return res
 }
 
 // LogbufMain: pcharness logbuf -seed S -tier quick|thorough -out file
@@ -136,12 +149,34 @@ func LogbufMain(args []string) {
 				write(b, x)
 			}
 			L := b.GetLogLength()
-			pts := []int{-1, 0, 1, 2, size, size + 1, L - 1, L, L + 1, 1 << 30, -(1 << 30)}
+			pts := []int{-1, 0, 1, 2, size, size + 1, L - 1, L, L + 1, 1 << 30, -(1 << 30), math.MaxInt64, math.MaxInt64 - 3, math.MinInt64}
+			type held struct {
+				win  []string
+				copy []string
+			}
+			var windows []held
 			for _, off := range pts {
 				for _, lim := range pts {
-					rangeRec(rec, b, off, lim)
+					w := rangeRec(rec, b, off, lim)
+					if len(w) > 0 {
+						windows = append(windows, held{w, append([]string{}, w...)})
+					}
 				}
 			}
+			// a window handed to a caller is a value: whatever is written (and trimmed) afterwards must not change it
+			for x := n + 1; x <= n+2*(size+100)+5; x++ {
+				write(b, x)
+			}
+			changed := 0
+			for _, h := range windows {
+				for k := range h.win {
+					if h.win[k] != h.copy[k] {
+						changed++
+						break
+					}
+				}
+			}
+			rec.put(map[string]any{"op": "winstable", "windows": len(windows), "changed": changed})
 		}
 	}
 	// (B) a writer concurrent with subscribe / unsubscribe
